@@ -1,0 +1,19 @@
+//go:build verif
+// +build verif
+
+package ack
+
+// Contracts for the deductive verifier in /verif (comment-only file, build tag `verif`).
+
+// Interface contract of the in-flight table as its callers (packets.go, writer.go) rely on it.
+// Insert never runs a callback; Ack and Expire may run callbacks registered earlier, which can do anything
+// to program state (they are closures of the packet processor and of the writer) but touch the pipeline's
+// ghost counters only as declared.
+//@ func (Queue).Insert(q Queue, prefix string, pkt packet.Packet, deadline time.Time, callback Callback) (err error)
+//@   modifies #inserts, #lastInsertPkt, #lastInsertPrefix
+//@   ensures err == nil ==> #inserts == old(#inserts) + 1 && #lastInsertPkt == pkt && #lastInsertPrefix == prefix
+//@   ensures err != nil ==> #inserts == old(#inserts) && #lastInsertPkt == old(#lastInsertPkt) && #lastInsertPrefix == old(#lastInsertPrefix)
+//@ func (Queue).Ack(q Queue, prefix string, pkt packet.Packet) (err error)
+//@   modifies *, #ackCalls, #handed, #lastHanded, #lastHandedHasCb, #wire, #lastWireTo, #lastWirePkt, #inserts, #lastInsertPkt, #lastInsertPrefix
+//@   ensures #ackCalls == old(#ackCalls) + 1
+//@   ensures #handed >= old(#handed) && #handed <= old(#handed) + 1
